@@ -54,6 +54,10 @@ POOL = [
     (recognize_datetime, ('this afternoon', 'en-us')),
     (recognize_datetime, ('early this evening', 'en-us')),
     (recognize_datetime, ('monday evening', 'en-us')),
+    # a compound amount whose fractional unit does NOT belong to its main unit (two entities), next to compounds that do merge: a table
+    # of "fraction units seen so far" that survives between calls would merge it
+    (recognize_currency, ('3 british pounds and 50 cents', 'en-us')),
+    (recognize_currency, ('3 euros and 50 pennies', 'en-us')),
 ]
 CACHE = ModelFactory._ModelFactory__cache
 
